@@ -286,7 +286,7 @@ theorem Cur.remS_exact (wr : Bool) (s : Cur) (hI : s.Inv) (n : Nat)
   subst hn
   refine ⟨z.stk, Cur.ofZ rev ⟨[], z.stk.reverse ++ z.ahd⟩, rfl, Cur.ofZ_inv _ _, ?_⟩
   rw [Cur.run_ofZ wr _ rev z (sym_replicate _ _ rfl),
-    flipAll_of_noflip wr _ rev (noflip_replicate _ _ (by simp)), List.replicate_add, Z.run_append]
+    flipAll_of_noflip wr _ rev (noflip_replicate _ _ (by simp)), ← List.replicate_append_replicate, Z.run_append]
   have h1 := Z.run_readS wr z.stk [] z.ahd
   simp only [List.append_nil] at h1
   cases z with
@@ -303,7 +303,7 @@ theorem Cur.remQ_exact (wr : Bool) (s : Cur) (hI : s.Inv) (n : Nat)
   subst hn
   refine ⟨z.ahd, Cur.ofZ rev ⟨z.ahd.reverse ++ z.stk, []⟩, rfl, Cur.ofZ_inv _ _, ?_⟩
   rw [Cur.run_ofZ wr _ rev z (sym_replicate _ _ rfl),
-    flipAll_of_noflip wr _ rev (noflip_replicate _ _ (by simp)), List.replicate_add, Z.run_append]
+    flipAll_of_noflip wr _ rev (noflip_replicate _ _ (by simp)), ← List.replicate_append_replicate, Z.run_append]
   have h1 := Z.run_readQ wr z.ahd z.stk []
   simp only [List.append_nil] at h1
   cases z with
@@ -328,7 +328,7 @@ theorem Cur.spaceLeft_exact (s : Cur) (hI : s.Inv) (n : Nat)
   rw [Cur.run_ofZ true _ rev z hsym, flipAll_of_noflip true _ rev hnf, Z.run_append,
     Z.run_writes ws z (by omega)]
   have hd : z.ahd.drop ws.length = [] := by simp [hlen]
-  simp [Z.run, Z.step, hd, hlen]
+  simp [Z.run, Z.step, hlen]
 
 /-! ## the invariant is preserved by every trait method, and none of them faults (C20) -/
 
